@@ -4,6 +4,7 @@ CONSTANTS
   Mode = "honest"
   MaxPkts = @@PKTS@@
   MaxLen = @@LEN@@
+  BodyClasses = {"any"}
   MaxStall = 1
   Chunking = "all"
   Dev = {"shortHeader", "emptyNoLen", "unboundedInflate"}
